@@ -25,7 +25,8 @@
    correspondence), that ssa replay of the bit path denotes the same tree (checked per case
    inside Coq via ssa_tree), and that simplify()/subgraphs() leave a precondition network
    untouched (exercised end to end by the oracle). *)
-From Coq Require Import ZArith NArith List Lia Permutation.
+From Coq Require Import ZArith NArith List Lia Permutation String.
+Open Scope string_scope.
 From Ctg Require Import Base Net Optimal OptimalFacts OptimalProc OptimalProcFacts.
 Import ListNotations.
 Open Scope nat_scope.
@@ -75,6 +76,38 @@ Theorem C09_cost_fn_limit_is_objective : forall nodes app szs f S1 S2 a b,
    (a + b + Z.max (step_flops nodes app szs S1 S2) (f * step_size nodes app szs S1 S2))%Z).
 Proof. exact (fun nodes app (szs : list Z) f => cost_fn_objective nodes app szs (OLimit f)). Qed.
 Print Assumptions C09_cost_fn_limit_is_objective.
+
+(* custom factor k = num/den (a float in the code), scores scaled by den *)
+Theorem C09_cost_fn_comboQ_is_objective : forall nodes app szs n d S1 S2 a b,
+  (forall j, j < length app -> cnt_all nodes j <= appn app j) -> N.land S1 S2 = 0%N ->
+  con_cost app szs (OComboQ n d) (fst (merge_legs (legs_of nodes app S1) (legs_of nodes app S2))) a b =
+  (legs_of nodes app (N.lor S1 S2),
+   (a + b + (d * step_flops nodes app szs S1 S2 + n * step_size nodes app szs S1 S2))%Z).
+Proof. exact (fun nodes app (szs : list Z) n d => cost_fn_objective nodes app szs (OComboQ n d)). Qed.
+Print Assumptions C09_cost_fn_comboQ_is_objective.
+
+Theorem C09_cost_fn_limitQ_is_objective : forall nodes app szs n d S1 S2 a b,
+  (forall j, j < length app -> cnt_all nodes j <= appn app j) -> N.land S1 S2 = 0%N ->
+  con_cost app szs (OLimitQ n d) (fst (merge_legs (legs_of nodes app S1) (legs_of nodes app S2))) a b =
+  (legs_of nodes app (N.lor S1 S2),
+   (a + b + Z.max (d * step_flops nodes app szs S1 S2) (n * step_size nodes app szs S1 S2))%Z).
+Proof. exact (fun nodes app (szs : list Z) n d => cost_fn_objective nodes app szs (OLimitQ n d)). Qed.
+Print Assumptions C09_cost_fn_limitQ_is_objective.
+
+(* the scaled objective with den = 1 is the integer-factor objective; only the ratio num/den matters:
+   the tree order (hence the argmin) for (num, den) is that of sum (flops + (num/den) size), resp.
+   sum max(flops, (num/den) size), and every theorem below holds for OComboQ / OLimitQ as for the six *)
+Theorem C09_weight_den1 : forall nodes app szs f t,
+  tscore nodes app szs (OComboQ f 1) t = tscore nodes app szs (OCombo f) t /\
+  tscore nodes app szs (OLimitQ f 1) t = tscore nodes app szs (OLimit f) t.
+Proof. exact tscoreQ_den1. Qed.
+Print Assumptions C09_weight_den1.
+
+Theorem C09_weight_depends_on_ratio_only : forall nodes app szs c n d t, (0 <= c)%Z ->
+  tscore nodes app szs (OComboQ (c * n) (c * d)) t = (c * tscore nodes app szs (OComboQ n d) t)%Z /\
+  tscore nodes app szs (OLimitQ (c * n) (c * d)) t = (c * tscore nodes app szs (OLimitQ n d) t)%Z.
+Proof. exact tscoreQ_homogeneous. Qed.
+Print Assumptions C09_weight_depends_on_ratio_only.
 
 (* the sorted merge detects exactly the outer products of the definition *)
 Theorem C09_merge_detects_outer : forall nodes app (szs : list Z),
@@ -381,3 +414,11 @@ Example C09_ex_pre_b :
   pre_b (mkNet [[0; 1]; [1; 0]; [2; 3]; [3; 2; 4]] [4] [(0, 2%Z); (1, 2%Z); (2, 2%Z); (3, 2%Z); (4, 2%Z)]) = false.
 Proof. vm_compute. repeat split; reflexivity. Qed.
 
+(* the parser model on the strings of the documentation and some that must be rejected *)
+Example C09_ex_parse :
+  parse_minimize "flops" = Some OFlops /\ parse_minimize "combo" = Some (OCombo 64) /\
+  parse_minimize "combo-0.5" = Some (OComboQ 5 10) /\ parse_minimize "limit--2.50" = Some (OLimitQ 250 100) /\
+  parse_minimize "combo7." = Some (OComboQ 7 1) /\ parse_minimize "limit-" = Some (OLimit 64) /\
+  parse_minimize "write-" = None /\ parse_minimize "flops-3" = None /\ parse_minimize "combo-.5" = None /\
+  parse_minimize "combo-1.2.3" = None /\ parse_minimize "max-2" = None /\ parse_minimize "combo=64" = None.
+Proof. vm_compute. repeat split; reflexivity. Qed.
